@@ -269,6 +269,13 @@ def _insert_rows(nrows, m2m=False):
     with connection.constraint_checks_disabled():
         for label in labels:
             for model in apps.get_app_config(label).get_models(include_auto_created=m2m):
+                with connection.cursor() as cur:
+                    try:
+                        cur.execute('SELECT COUNT(*) FROM "%s"' % model._meta.db_table)
+                        if cur.fetchone()[0]:
+                            continue        # already has rows
+                    except Exception:
+                        continue            # no such table (yet)
                 for r in range(nrows):
                     cols, vals = [], []
                     for f in model._meta.local_fields:
